@@ -30,7 +30,12 @@
 (***************************************************************************)
 EXTENDS DirectConn, Json, IOUtils
 
-CONSTANT HdrAddr        \* "any": the property's words; "target": the SOCKS5 reply header must name the target
+CONSTANTS HdrAddr,      \* "any": the property's words; "target": the SOCKS5 reply header must name the target
+          Stall         \* "note": a write that blocks for good after the peer closed is reported, not rejected
+                        \* ("closed" = the read side saw eof / reset, nothing more); "violation": it is rejected
+
+\* monitors whose firing does not stop the search
+Tolerated == IF Stall = "note" THEN {"StalledAfterClose"} ELSE {}
 
 Rec == ndJsonDeserialize(IOEnv.TRACE)
 N == Len(Rec)
@@ -63,9 +68,20 @@ HistOf(r) ==
 
 AssocFailed(r) == \E n \in 1 .. Len(r.CL) : \E i \in 1 .. Len(r.CL[n]) : r.CL[n][i].ev = "assoc" /\ ~r.CL[n][i].ok
 
-UdpWhy(r) == UdpFailing(HistOf(r), HdrAddr = "target") \cup (IF AssocFailed(r) THEN {"socks5_associate_failed"} ELSE {})
+\* every datagram that did not reach the target was sent after the client had been silent for `idle_ms` >= 10 s
+\* (the idle timeout of the relay): the stable name of that case
+LostAfterIdle(r) ==
+  LET h == HistOf(r)
+      us == Gather(r, Len(r.CL), "usend")
+      lost == {i \in Idx(us) : ~\E m \in Idx(h.trecv) : <<h.trecv[m].n, h.trecv[m].dg>> = <<us[i].e.n, us[i].e.dg>>}
+  IN lost # {} /\ \A i \in lost : us[i].e.idle_ms >= 10000
+
+UdpWhy(r) ==
+  LET w == UdpFailing(HistOf(r), HdrAddr = "target") \cup (IF AssocFailed(r) THEN {"socks5_associate_failed"} ELSE {})
+  IN IF "udp_datagram_lost" \in w /\ LostAfterIdle(r) THEN (w \ {"udp_datagram_lost"}) \cup {"udp_datagram_lost_after_idle"} ELSE w
 
 UdpOrder == <<"socks5_associate_failed", "udp_datagram_modified", "udp_datagram_duplicated", "udp_datagram_lost",
+              "udp_datagram_lost_after_idle",
               "socks5_udp_header", "udp_reply_wrong_client", "udp_reply_wrong_source", "udp_reply_modified",
               "udp_reply_duplicated", "udp_reply_lost", "socks5_udp_header_addr", "udp_timeout">>
 First(order, S) == LET I == {i \in 1 .. Len(order) : order[i] \in S}
@@ -84,7 +100,7 @@ NextOf(x) == IF x = "c" THEN (IF ic < Len(EvC) THEN <<EvC[ic + 1]>> ELSE <<>>)
                         ELSE (IF it < Len(EvT) THEN <<EvT[it + 1]>> ELSE <<>>)
 \* what keeps the search from going on from here
 Blockers ==
-  LET B(x) == IF NextOf(x) = <<>> THEN {} ELSE Failing(st, x, NextOf(x)[1])
+  LET B(x) == IF NextOf(x) = <<>> THEN {} ELSE Failing(st, x, NextOf(x)[1]) \ Tolerated
   IN B("c") \cup B("t") \cup (IF AtEnd THEN EndFailing(st) ELSE {})
 
 Init ==
@@ -97,7 +113,7 @@ Init ==
 
 TakeEv(x) ==
   /\ NextOf(x) # <<>>
-  /\ Failing(st, x, NextOf(x)[1]) = {}
+  /\ Failing(st, x, NextOf(x)[1]) \subseteq Tolerated
   /\ st' = Step(st, x, NextOf(x)[1])
   /\ IF x = "c" THEN ic' = ic + 1 /\ it' = it ELSE it' = it + 1 /\ ic' = ic
   /\ k' = k
@@ -134,7 +150,8 @@ TcpSig(r, why) ==
   ELSE IF Has(C \o T, LAMBDA e : e.ev = "bad") THEN "tcp_bytes_corrupt"
   ELSE IF ~Contiguous(C) \/ ~Contiguous(T) THEN "tcp_bytes_misordered"
   ELSE IF GotUpTo(C) > SumSent(T, Len(T)) \/ GotUpTo(T) > SumSent(C, Len(C)) THEN "tcp_bytes_invented"
-  ELSE IF Has(C \o T, LAMBDA e : e.ev = "timeout" /\ e.what = "write") THEN "tcp_stalled"
+  ELSE IF Has(C \o T, LAMBDA e : e.ev = "timeout" /\ e.what = "write")
+       THEN (IF "StalledAfterClose" \in why THEN "write_stalled_after_peer_closed" ELSE "tcp_stalled")
        \* an endpoint gave up waiting for the end of the stream: after the peer CLOSED (or refused) it is the local
        \* connection left hanging (or the target's), after a mere half-close it is the half-close that did not arrive;
        \* which of the two it was is what the search found at its deepest point
@@ -165,6 +182,8 @@ Min(S) == CHOOSE i \in S : \A j \in S : i <= j
 
 Accepted ==
   /\ \A i \in 1 .. N : (Rec[i].kind = "udp" /\ HeaderNote(Rec[i])) => PrintT(<<"NOTE", i, "socks5_udp_header_addr_not_target">>)
+  /\ \A i \in 1 .. N : (Rec[i].kind = "tcp" /\ TLCGet(Reg(i)).acc /\ Has(Rec[i].C \o Rec[i].T, LAMBDA e : e.ev = "timeout" /\ e.what = "write"))
+                          => PrintT(<<"NOTE", i, "write_stalled_after_peer_closed">>)
   /\ \/ /\ Bad = {}
         /\ PrintT(<<"ACCEPTED lines", N>>)
      \/ /\ Bad # {}
